@@ -393,6 +393,13 @@ def run(ctx):
     from .common import prefilter_judges_child_rule
     prefilter_judges_child_rule(ctx, 'C01-D2')
 
+    # rows a killed run left in progress are released before anything is handed out (rule shared with C03), and the filters
+    # decide as documented (tables shared with C02: a filter that refuses too much keeps in-scope URLs from being fetched)
+    from . import c03 as _c03, c02 as _c02
+    from .common import RemapCtx as _RC
+    _c03.d3_release_at_startup(_RC(ctx, {'C03-D3': 'C01-D5'}))
+    _c02.d2_filter_tables(_RC(ctx, {'C02-D2': 'C01-D2'}))
+
     # ------------------------------------------------------------------ D6
     _d6_redirect_hops(ctx)
 
